@@ -215,6 +215,20 @@ def c12(m, o):
         viol.append("initial population labels differ from compartments")
     if np.abs(np.asarray(ip.values, dtype=float) - out[0]).max() > 1e-9 * (1 + np.abs(out[0]).max()):
         viol.append("row 0 of outputs differs from the initial population")
+    if o.get("dist") is not None:
+        # the columns carry the people of the compartment they are labelled with: per original compartment
+        # the columns of row 0 add up to the population the definition gave that compartment
+        for nm, e in o["dist"].items():
+            want = _pyexpr(e, p, 0.0, None)
+            got = float(sum(out[0][i] for i, c in enumerate(m.compartments) if c.name == nm))
+            checks += 1
+            if abs(got - want) > 1e-9 * (1 + abs(want)):
+                viol.append("row 0: the columns labelled %s hold %.12g people, the initial distribution gives %s %.12g" % (nm, got, nm, want))
+        for c_ in {c.name for c in m.compartments} - set(o["dist"]):
+            got = float(sum(out[0][i] for i, c in enumerate(m.compartments) if c.name == c_))
+            checks += 1
+            if abs(got) > 1e-9:
+                viol.append("row 0: the columns labelled %s hold %.12g people, the initial distribution gives that compartment nobody" % (c_, got))
     return {"checks": checks, "violations": viol}
 
 
@@ -491,6 +505,22 @@ def c16(m, o):
         if np.abs(got - exp).max() > 0:
             i = int(np.abs(got - exp).argmax())
             viol.append("piecewise breakpoints=%s values=%s at x=%r: %r, values[#{b<=x}] = %r" % (xs, vals_eff, ts[i], got[i], exp[i]))
+        # lists mixing whole-number literals (written as Python ints) with parameters that take non-integer values
+        if case % 3 == 0:
+            pk, tm = 0.7, 7.5
+            fl_ = stf.get_time_callable(stf.get_linear_interpolation_function([0, 10, 20], [0, Parameter("pk"), 0]), jit_compile=False)
+            fs_ = stf.get_time_callable(stf.get_sigmoidal_interpolation_function([0, Parameter("tm"), 20], [1, 3, 2]), jit_compile=False)
+            fp_ = stf.get_time_callable(stf.get_piecewise_function([5, Parameter("tm")], [1, Parameter("pk"), 3]), jit_compile=False)
+            pp = {"pk": pk, "tm": tm}
+            checks += 3
+            got = [float(fl_(t, pp)) for t in (5.0, 10.0, 15.0)]
+            if np.abs(np.array(got) - np.array([pk / 2, pk, pk / 2])).max() > 1e-9:
+                viol.append("linear interpolation through [0, Parameter(0.7), 0] (int literals) gives %s at t=5,10,15" % got)
+            if abs(float(fs_(tm, pp)) - 3.0) > 1e-9 or abs(float(fs_(7.0, pp)) - 3.0) < 1e-12:
+                viol.append("sigmoidal interpolation with the knot [0, Parameter(7.5), 20]: value at 7.5 is %r, at 7.0 %r" % (float(fs_(tm, pp)), float(fs_(7.0, pp))))
+            got = [float(fp_(t, pp)) for t in (4.0, 6.0, 7.2, 7.5, 9.0)]
+            if got != [1.0, pk, pk, 3.0, 3.0]:
+                viol.append("piecewise with breakpoints [5, Parameter(7.5)] and values [1, Parameter(0.7), 3] gives %s at 4, 6, 7.2, 7.5, 9" % got)
         # one breakpoint
         f1 = stf.get_time_callable(stf.get_piecewise_function([xs[0]], [1.0, 2.0]), jit_compile=False)
         checks += 1
@@ -835,6 +865,16 @@ def c09(m, o):
         m3.run({k: p[k] for k in half}, solver=solver, jit=False)
         checks += 1
         same(ref, outs(m3), "defaults for %s, supplied %s" % ([k for k in used if k not in half], half))
+        # defaults + a first run that omits some values + a second run on the same object that supplies them
+        m5, _, _ = impl.build(dict(prog, obs=[]))
+        m5.set_default_parameters(dict(wrong))
+        try:
+            m5.run({k: p[k] for k in used if k not in half}, solver=solver, jit=False)
+            m5.run({k: p[k] for k in used}, solver=solver, jit=False)
+            checks += 1
+            same(ref, outs(m5), "second run of one object, supplying values the first run took from the defaults")
+        except BaseException as e:  # noqa
+            viol.append("runs over default parameters raise %r" % (e,))
         m4, _, _ = impl.build(dict(prog, obs=[]))
         m4.set_default_parameters({k: p[k] for k in used})
         r4 = m4.get_runner({}, dyn_params=half, jit=False, solver=solver)
@@ -1167,6 +1207,26 @@ def c05(m, o):
         checks += 1
         if abs(fr[i] - w * x[comp_pos(m)[str(f.source)]] * exp) > 1e-9 * (1 + abs(fr[i])):
             viol.append("infection flow %d rate %.12g, weight x source x force of infection = %.12g" % (i, fr[i], w * x[comp_pos(m)[str(f.source)]] * exp))
+    if o.get("traj") and not viol:
+        # the same definition holds at every state of a run: each Euler row is the previous row plus the timestep times
+        # the compartment rates one_step gives at that row (one_step itself has just been compared with the definition)
+        try:
+            m.run(p, solver="euler", jit=False, rebuild=True)
+            out = np.asarray(m.outputs, dtype=float)
+        except BaseException:  # noqa
+            out = None
+        if out is not None and np.isfinite(out).all():
+            runner = m.get_runner(p, jit=False)
+            h = float(m.timestep)
+            for k in range(len(out) - 1):
+                st = runner.impl_dict["one_step"](p, float(m.times[k]), jnp.array(out[k]))
+                nxt = out[k] + h * np.asarray(st.comp_rates, dtype=float)
+                checks += 1
+                if np.abs(nxt - out[k + 1]).max() > 1e-9 * (1 + np.abs(nxt).max()):
+                    j = int(np.abs(nxt - out[k + 1]).argmax())
+                    viol.append("row %d of an euler run: compartment %s = %.12g, but row %d plus timestep x rates at that row "
+                                "(force of infection from the populations at that row) = %.12g" % (k + 1, m.compartments[j], out[k + 1][j], k, nxt[j]))
+                    break
     return {"checks": checks, "violations": viol[:8]}
 
 
@@ -1461,6 +1521,40 @@ def c11(m, o):
                     snap = s_now
         return seen
 
+    def whitelist_step():
+        """a runner built for a subset of the derived outputs, then an ordinary rebuilt run: same keys and numbers as before"""
+        nonlocal checks
+        mm, err, why = impl.build(dict(o["program"], obs=[]))
+        assert err is None, why
+        full = [c for c in calls if c["call"] == "run" and len(c.get("params") or {}) >= 4]
+        if not full:
+            return
+        given = fl(full[0]["params"])
+        solver_ = full[0]["solver"]
+        try:
+            mm.run(dict(given), solver=solver_, jit=False)
+        except BaseException:  # noqa
+            return
+        before = bits(mm)
+        keys = list(mm.derived_outputs)
+        if not keys:
+            return
+        snap = definition_snapshot(mm)
+        try:
+            r_ = mm.get_runner(dict(given), solver=solver_, jit=False, derived_outputs=keys[:1])
+            r_.run(dict(given))
+        except BaseException:  # noqa
+            return
+        checks += 2
+        dd = snapshot_diff(snap, definition_snapshot(mm))
+        if dd:
+            viol.append("building a runner for the derived outputs %s changed the definition: %s" % (keys[:1], dd))
+        mm.run(dict(given), solver=solver_, jit=False, rebuild=True)
+        if bits(mm) != before:
+            viol.append("after a runner for the derived outputs %s was built, a rebuilt run returns %s instead of %s (or other numbers)"
+                        % (keys[:1], list(mm.derived_outputs), keys))
+
+    whitelist_step()
     first = execute(calls, "history")
     # an independently built object, the run calls alone, in reverse order, each on a rebuilt runner
     runs = [c for c in calls if c["call"] in ("run", "set_defaults")]
